@@ -37,8 +37,10 @@ class World:
         self.w = int(w)
         self.entropy_reads = 0
         self.clock_reads = 0
-        # worlds differ maximally: clocks 1e9 s apart, disjoint byte streams
-        self.t = 1.0e9 * (self.w % 7 + 1)
+        # worlds differ in every respect: disjoint byte streams, clocks years apart with
+        # unrelated low-order digits (so parity / modulo tricks on the time differ too)
+        h = int.from_bytes(hashlib.blake2b(b"clock:%d" % self.w, digest_size=8).digest(), "big")
+        self.t = 1.0e9 + (h % 700000000) + ((h >> 32) % 1000) / 1000.0
 
     def _bytes(self, n):
         self.entropy_reads += 1
